@@ -151,6 +151,90 @@ func VerifC02_History() {
 	}
 }
 
+// VerifC02_Handover: the bridge contract on the remote chain is replaced (compass
+// hand-over: new deployment id, nonces start again at 1) while claims of the old
+// deployment are still on record — possibly with a full quorum that could never
+// be applied because an earlier nonce was contested. After the hand-over only
+// claims of the current deployment may take effect, each with more than 66 % of
+// the power behind it, in consecutive nonce order from 1.
+func VerifC02_Handover() {
+	const V = 3
+	env := keeper.NewVEnv(100)
+	env.SetLatestCompassID(c02Chain, "compass-1")
+	for i := 0; i < V; i++ {
+		env.Staking.Add(c02Vals[i], stakingtypes.Bonded, false, sdkmath.NewInt(10), 10)
+	}
+	env.Staking.TotalPower = sdkmath.NewInt(10 * V)
+	srv := keeper.NewMsgServerImpl(env.K)
+	current := "compass-1"
+	// voted[deployment][nonce][variant][validator]
+	voted := map[string]*[3][2][V]bool{"compass-1": {}, "compass-2": {}}
+	vote := func(v int, nonce uint64, variant int, compass string) {
+		c := c02Claim(v, nonce, variant)
+		c.CompassId = compass
+		cctx, commit := env.Ctx.CacheContext()
+		if _, err := srv.SendToPalomaClaim(cctx, c); err == nil {
+			commit()
+			sym.Reach("vote-accepted")
+			voted[compass][nonce][variant][v] = true
+		} else {
+			sym.Reach("vote-rejected")
+		}
+	}
+	applied, lastObserved := 0, uint64(0)
+	tally := func() {
+		_ = attestationTally(env.Ctx, env.K, c02Chain)
+		for ; applied < len(env.Handler.Applied); applied++ {
+			sym.Reach("effect-applied")
+			c := env.Handler.Applied[applied].(*types.MsgSendToPalomaClaim)
+			sym.Assert(c.CompassId == current, "effects-only-from-the-current-bridge-deployment")
+			n, variant := c.SkywayNonce, int(c.Amount.Int64()-100)
+			cnt := 0
+			if w, ok := voted[c.CompassId]; ok && n < 3 {
+				for v := 0; v < V; v++ {
+					if w[n][variant][v] {
+						cnt++
+					}
+				}
+			}
+			sym.Assert(cnt*100 > 66*V, "effect-needs-more-than-66-percent-of-distinct-voters")
+			sym.Assert(n == lastObserved+1, "effects-in-consecutive-nonce-order-per-deployment")
+			lastObserved = n
+		}
+		got, _ := env.K.GetLastObservedSkywayNonce(env.Ctx, c02Chain)
+		sym.Assert(got == lastObserved, "cursor-matches-applied-effects")
+	}
+	// old deployment: nonce 1 may be contested, nonce 2 may gather any number of votes
+	if sym.Bool("v0-votes-nonce-1-variant-a") {
+		vote(0, 1, 0, "compass-1")
+	}
+	if sym.Bool("v1-votes-nonce-1-variant-b") {
+		vote(1, 1, 1, "compass-1")
+	}
+	for v := 0; v < V; v++ {
+		if sym.Bool("votes-nonce-2") {
+			vote(v, 2, 0, "compass-1")
+		}
+	}
+	tally()
+	if sym.Bool("hand-over") {
+		// what the EVMActivatedChain subscriber of the keeper does
+		env.SetLatestCompassID(c02Chain, "compass-2")
+		if err := env.OverrideNonce(c02Chain, 0); err != nil {
+			panic(err)
+		}
+		current, lastObserved = "compass-2", 0
+		sym.Reach("handed-over")
+	}
+	for v := 0; v < V; v++ {
+		if sym.Bool("votes-next") {
+			vote(v, lastObserved+1, 0, current)
+		}
+	}
+	tally()
+}
+
 var VerifEntries = map[string]func(){
-	"VerifC02_History": VerifC02_History,
+	"VerifC02_Handover": VerifC02_Handover,
+	"VerifC02_History":  VerifC02_History,
 }
